@@ -194,7 +194,7 @@ func (fd FieldIDMap) Size() int {
 
 // Get gets the field descriptor for the given id
 func (fd FieldIDMap) Get(id int32) unsafe.Pointer {
-	if int(id) >= len(fd.m) {
+	if id < 0 || int(id) >= len(fd.m) {
 		return nil
 	}
 	return fd.m[id]
